@@ -574,8 +574,9 @@ def history_seeds(tier, seed):
         [('sh', 1), ('sh', 2), ('sh', 3), ('shz', 2), ('s1z', 1), ('s1z', 2), ('s1z', 3), ('shp', 1), ('shp', 3), ('fp', 2), ('fN', 2), ('b2N', 2),
          ('shf', 2), ('shfN', 2), ('mix0', 3), ('mixSz', 2), ('mixN', 2), ('grp', 2), ('f', 3)]
     for k, (ch, L) in enumerate(inf):
-        out.append(dict(chain=ch, L=L, bc='infinite', kind='raw', seed=seed, cplx=bool(k % 2), mult=[2, 1, 2][:max(L, 1)] if L > 1 else [3], norm=1.3,
-                        window=3 if L < 3 else 2))
+        cell = int(np.prod(U.dims(U.chain(ch, L))))
+        out.append(dict(chain=ch, L=L, bc='infinite', kind='raw', seed=seed, cplx=bool(k % 2), mult=[2, 1, 2][:L] if L > 1 else [3], norm=1.3,
+                        window=3 if cell ** 3 <= 256 else 2))  # unit cells in the compared reduced density matrix
     out.append(dict(chain='shz', L=2, bc='infinite', kind='raw', seed=seed, cplx=False, mult=[2, 1], norm=1.0, unbunched=True))
     out.append(dict(chain='sh', L=2, bc='infinite', kind='raw', seed=seed, cplx=True, mult=[2, 5], norm=0.5, window=3))  # rank deficient
     return out
